@@ -1,6 +1,8 @@
 package props
 
 import (
+	"net/url"
+	"context"
 	"sort"
 	"bytes"
 	"fmt"
@@ -201,6 +203,9 @@ func c04Judge(c c04Case) c04Verdict {
 	switch c.Kind {
 	case "callback":
 		p := cbP{Binding: c.Binding, SigAlg: c.SigAlg}
+		if c.Flow == "after-failed-writes" {
+			p.Dirty = "failed-writes"
+		}
 		for i, f := range c.Fields {
 			c04Apply(&p, f, sXML[c.Syms[i]].Val)
 			v.Detail[fmt.Sprintf("field%d", i)] = c04Fields[f].Name
@@ -243,7 +248,21 @@ func c04Judge(c c04Case) c04Verdict {
 				w.Store.FaultNext("GetResponseSigningKey", 1, c.Flow[i+1:])
 			}
 		}
-		rep, m := cbRun(w, t)
+		var rep *world.Reply
+		var m *obs.Msg
+		if strings.HasPrefix(c.Flow, "context-") {
+			// the request's context is cancelled / past its deadline when the handler starts; the storage does not look at it
+			req := world.NewRequest("GET", t.Host, w.Cfg.CallbackPath(), url.Values{"id": {t.StoredID}}, "", nil)
+			ctx, cancel := context.WithCancel(req.Context())
+			if c.Flow == "context-deadline-exceeded" {
+				ctx, cancel = context.WithDeadline(req.Context(), time.Unix(1, 0))
+			}
+			cancel()
+			rep = w.Do(req.WithContext(ctx))
+			m = obs.Decode(rep)
+		} else {
+			rep, m = cbRun(w, t)
+		}
 		v.Class = "callback:" + m.Kind
 		v.Detail["reply"] = obs.Describe(rep, m)
 		if rep.Panic != "" {
@@ -252,6 +271,15 @@ func c04Judge(c c04Case) c04Verdict {
 		}
 		if !m.Success() {
 			v.Class += "/non-success"
+			// whatever signature a non-Success reply carries all the same has to verify as well (a signed artefact is a signed artefact)
+			if m.Kind == obs.KindRedirect && strings.Contains(m.RawQuery, "Signature=") {
+				if pub, err := publishedCert(w, t.Host); err == nil {
+					if err := verify.Redirect(m.RawQuery, "SAMLResponse", pub); err != nil {
+						bad("redirect-signature-does-not-verify")
+						v.Detail["verify"] = err.Error()
+					}
+				}
+			}
 			return v
 		}
 		v.outOfDomainBinding = c.Binding != "" && c.Binding != "redirect"
@@ -454,6 +482,11 @@ func runC04(ctx Ctx) int {
 				cases = append(cases, c04Case{Kind: "callback", Binding: b, SigAlg: a, ACSMode: am})
 			}
 			cases = append(cases, c04Case{Kind: "callback", Binding: b, SigAlg: a, Flow: "mismatched-key"})
+			for _, fl := range []string{"after-failed-writes", "context-cancelled", "context-deadline-exceeded"} {
+				for _, am := range []string{"", "empty", "query"} {
+					cases = append(cases, c04Case{Kind: "callback", Binding: b, SigAlg: a, Flow: fl, ACSMode: am})
+				}
+			}
 			cases = append(cases, c04Case{Kind: "callback", Binding: b, SigAlg: a, Flow: "foreign-private-key"})
 			for _, fl := range c04KeyHistories {
 				cases = append(cases, c04Case{Kind: "callback", Binding: b, SigAlg: a, Flow: fl})
